@@ -73,7 +73,7 @@ def run(ctx):
     only = os.environ.get("VERIF_C17_ONLY", "")       # selftests: "store" or "connect" restricts the check to one half
     if only:
         ctx.extra["restricted_to"] = only
-    configs = [] if only == "connect" else ["E1_abc.cfg", "E1_sxf.cfg"] if quick else ["E1_4a.cfg", "E1_abc.cfg", "E1_sxf.cfg", "E1_sfs.cfg", "E1_sxa.cfg", "E1_4b.cfg"]
+    configs = [] if only == "connect" else ["E1_abc.cfg", "E1_sxf.cfg"] if quick else ["E1_4a.cfg", "E1_abc.cfg", "E1_sxf.cfg", "E1_sfs.cfg", "E1_sxa.cfg"]
     per_action = collections.Counter()
     fault_results = collections.Counter()
     # two configurations at a time, each with half of the available parallelism
